@@ -62,6 +62,7 @@ struct Scenario {
   int preSyns = 2, gapSyns = 1, tailSyns = 3;
   int k = 2, c = 1, r = 0;     // deviation / chunk / late-request budgets for this scenario
   int slices = 1;              // the exploration of this scenario is split into this many work units
+  bool unbounded = false;      // A-mode: budgets are not a bound (the run length is), so they are not part of the state
   bool drainAtEnd = false;     // C04: force signal loss at the end
   bool faults = false;         // offer read/write error + device invalid alternatives
   bool arbContenders = true;   // offer contender alternatives at the arbitration slot
@@ -74,6 +75,7 @@ struct Scenario {
   int loseArbitrations = 0;    // scripted: ebusd loses this many arbitrations to scriptedContender
   uint8_t scriptedContender = 0x10;
   int silenceAtRead = 0;       // scripted: two long silences (signal loss) at this read call
+  bool freezeAtLastScript = false;  // A-mode: no more deviations once the last foreign script (the probe) has started
 };
 
 // ---------------------------------------------------------------------------------------------
@@ -97,6 +99,7 @@ class Monitor {  // interface implemented by the property monitors
   virtual void onEnqueue(int req) {}
   virtual void onQuiescent(bool buffered) {}       // ebusd asks for input: everything consumed is processed; buffered = more received bytes are waiting
   virtual void onEnd() {}
+  virtual void onProbeStart() {}                   // A-mode: the fixed probe telegram starts now
   virtual void fingerprint(std::string* o) const {}
 };
 
@@ -200,6 +203,7 @@ class World {
   std::function<void()> readHook;   // schedmc: scheduling point at every transport read
   bool externalBusy = false;        // schedmc: client threads still have work
   int arbLost = 0, silencesDone = 0;
+  bool frozen = false;
   void enqueue(int idx);
   void note(const std::string& s) { if (logging) log.push_back(s); }
 
